@@ -49,13 +49,6 @@ func mutateCell(g *h.G, c *boc.Cell) []*boc.Cell {
 	return out
 }
 
-func minInt(a, b int) int {
-	if a < b {
-		return a
-	}
-	return b
-}
-
 func genC03(g *h.G) {
 	tlbInit()
 	perType := g.Scale(8, 150)
